@@ -22,7 +22,7 @@ Variant    : the model variants Cur / MCur (ADFI_close_file since /repo 909ac4d,
              against the library.  The witnesses of the repaired defects live in corpus/C17/*.json: they run FIRST and must pass;
              a regression re-fires VIOLATION under the original key.
 """
-import concurrent.futures, glob, hashlib, json, os, re, shutil
+import base64, concurrent.futures, glob, hashlib, json, os, re, shutil
 import vlib
 
 CHECKER = "make -C coq RefcountProofs.vo (coqc 8.16.1 kernel) ; coqc Properties_C17.v (Print Assumptions)"
@@ -245,11 +245,14 @@ def io_features(mlines):
     return f
 
 
-def io_case(exe, world, ops, backend, work, tag, variant=None, cycles=1):
-    """run one cgio-level session on the implementation (and the model when variant is given)"""
+def io_case(exe, world, ops, backend, work, tag, variant=None, cycles=1, files=None):
+    """run one cgio-level session on the implementation (and the model when variant is given); files = {index: bytes} for
+    the world kinds x... (supplied files)"""
     d = os.path.join(work, tag)
     shutil.rmtree(d, ignore_errors=True)
     os.makedirs(d)
+    for i, data in (files or {}).items():
+        open(os.path.join(d, "F%d.cgio" % int(i)), "wb").write(data)
     body = ops + closing_tail(ops)
     script = [world]
     for k in range(cycles):
@@ -259,7 +262,8 @@ def io_case(exe, world, ops, backend, work, tag, variant=None, cycles=1):
     if variant:
         ml = vlib.run_model("c17", "variant %s\nfuel 20000\n%s\n" % (variant, "\n".join([world] + [o for o in body if not o.startswith(NOTABLE)])), args=["io"])
     shutil.rmtree(d, ignore_errors=True)
-    return {"impl": il, "outcome": oc, "report": rep, "model": ml, "world": world, "ops": ops, "backend": backend, "script": script}
+    return {"impl": il, "outcome": oc, "report": rep, "model": ml, "world": world, "ops": ops, "backend": backend, "script": script,
+            "files": files or {}}
 
 
 def cyc_in_world(world):
@@ -410,7 +414,9 @@ def heap_slope(lines, warm=1):
 
 
 # ----------------------------------------------------------------------------------------------- MLL level
-SPECIAL = {10: "missing", 11: "garbage", 12: "badver", 13: "twovers", 14: "badbase", 15: "badzone", 16: "dir"}
+SPECIAL = {10: "missing", 11: "garbage", 12: "badver", 13: "twovers", 14: "badbase", 15: "badzone", 16: "dir", 17: "h5plain", 18: "empty",
+           99: "missing"}      # 99: the harness opens a name that is too long; 30..: files supplied by the driver (refused_pool)
+READOFF = {17, 18}             # outcome class (refused in cgio_open_file / later) read off the table, as for supplied files
 LATE = {"badver", "twovers", "badbase", "badzone"}
 
 
@@ -502,6 +508,8 @@ def mll_case(exe, sc, work, tag, cycles):
     d = os.path.join(work, tag)
     shutil.rmtree(d, ignore_errors=True)
     os.makedirs(d)
+    for i, data in (sc.get("files") or {}).items():
+        open(os.path.join(d, "M%d.cgns" % int(i)), "wb").write(data)
     script = list(sc["prep"])
     for k in range(cycles):
         script += sc["body"] + ["cycle %d" % k]
@@ -647,9 +655,9 @@ def mll_model_lines(script, il, variant, backend):
             ok = l.startswith("open 0")
             nfiles = int(d["mll"].split()[2]) if "mll" in d else nfiles_prev
             oc = "ok"
-            if f in SPECIAL:
+            if f in SPECIAL and f not in READOFF:
                 oc = "latefail" if SPECIAL[f] in LATE else "cgiofail"
-            elif not ok and (f in has_links or (backend == "hdf5" and f in open_files.values())):
+            elif not ok and (f in has_links or f in READOFF or f >= 30 or (backend == "hdf5" and f in open_files.values())):
                 oc = "latefail" if nfiles > nfiles_prev else "cgiofail"
             if ok:
                 open_files[t[1]] = f
@@ -741,6 +749,161 @@ def fill_drain(backend, variant, n, kinds=FD_KINDS):
     return sc
 
 
+# ----------------------------------------------------------------------------------------------- refused opens
+def refused_pool(work):
+    """files that some open path refuses, derived with the C13 machinery (checks/C13.py, harness/c13_io.c, the C13 model):
+    valid files written by the C13 corpus maker; of the ADF ones every file-header mutant C13 derives (boundary tags, what-string:
+    major letter, minor revision newer / unparsable / older, pre-numbering form, magic; format letters; type sizes; root / end /
+    free-chunk pointers) and truncations at every header boundary; classified by the C13 MODEL (first line of its walk = what
+    ADF_Database_Open answers), in the unrepaired and the repaired state of that model; a file enters the table-model worlds
+    only when both states refuse it with the same ADF error (kind x<error>) or when it has lost the ADF signature (kind xg).
+    Files the model opens, or on which it predicts a memory error, are C13's business and are left out (counted).  Files
+    without a class (kind None: truncations behind the header, HDF5 truncations / superblock damage, valid non-CGNS containers)
+    are used where no table model is compared: HDF5 sessions and the MLL level.
+    -> list of dict(desc, data, kind, base)"""
+    from checks import C13
+    exe = vlib.build_harness("c13_io", ["c13_io.c"])
+    vlib.build_modelrun("c13")
+    d = os.path.join(work, "c13corp")
+    shutil.rmtree(d, ignore_errors=True)
+    os.makedirs(d)
+    lines, oc = vlib.run_impl(exe, "", args=["mkcorpus", d], timeout=120)
+    if oc != "ok" or "done" not in lines:
+        raise vlib.Infra("C13 corpus maker failed: %s %s" % (oc, lines[-3:]))
+    pool, seen, stats = [], set(), {"candidates": 0, "model_opens": 0, "model_abnormal": 0, "state_dependent": 0}
+
+    def add(desc, data, kind, base):
+        h = hashlib.sha1(data).hexdigest()
+        if h not in seen:
+            seen.add(h)
+            pool.append({"desc": desc, "data": data, "kind": kind, "base": base})
+
+    def heads(out):
+        r, cur = [], []
+        for l in out:
+            if l == "END":
+                r.append(cur[0] if cur else "?"); cur = []
+            else:
+                cur.append(l)
+        return r
+    nflags = len(C13.FLAGS)
+    for base in ("m_struct.adf", "t_legacy.adf"):
+        data = open(os.path.join(d, base), "rb").read()
+        af = C13.AdfFile(base, data)
+        cands = [(desc, C13.apply_patches(data, patches)) for desc, cls, patches in af.mutants() if desc.startswith(("fileheader.", "fct."))]
+        n = len(data)
+        cands += [("truncate to %d" % L, data[:L]) for L in sorted({0, 1, 4, 23, 24, 31, 32, 33, 101, 102, 103, 185, 186, 187, 265, 266, 267, 300,
+                                                                     4095, 4096, n // 2, n - 1}) if L < n]
+        script = "".join("base %s\nwalk 1\n" % m[:8192].hex() for _, m in cands)
+        h0 = heads(C13.model(script, bits="0" * nflags))
+        h1 = heads(C13.model(script, bits="1" * nflags))
+        if len(h0) != len(cands) or len(h1) != len(cands):
+            raise vlib.Infra("C13 model: %d / %d answers for %d files" % (len(h0), len(h1), len(cands)))
+        for (desc, m), a, b in zip(cands, h0, h1):
+            stats["candidates"] += 1
+            sig = len(m) >= 32 and m[4:24] == b"ADF Database Version"
+            if not sig:
+                add(desc, m, "xg", base)
+            elif a != b:
+                stats["state_dependent"] += 1
+            elif a.startswith("open err "):
+                add(desc, m, "x" + a.split()[2], base)
+            elif a.startswith("open ok"):
+                stats["model_opens"] += 1
+                if desc.startswith("truncate"):
+                    add(desc, m, None, base)            # header intact, the tree is cut: refused (if at all) behind the open
+            else:
+                stats["model_abnormal"] += 1
+        if base == "m_struct.adf":                      # cut inside the node tree: cg_open gets past cgio_open_file
+            for nd in af.nodes[1:40:4]:
+                add("truncate to %d (node boundary)" % nd["pos"], data[:nd["pos"]], None, base)
+                add("truncate to %d (inside a node header)" % (nd["pos"] + 40), data[:nd["pos"] + 40], None, base)
+    add("valid ADF file that is not a CGNS file", open(os.path.join(d, "t_small.adf"), "rb").read(), None, "t_small.adf")
+    for base in ("h_mll.hdf", "h_small.hdf"):
+        data = open(os.path.join(d, base), "rb").read()
+        n = len(data)
+        if base == "h_small.hdf":
+            add("valid cgio/HDF5 file that is not a CGNS file", data, None, base)
+            continue
+        for L in sorted({0, 4, 8, 9, 48, 96, 511, 512, 1024, 2048, n // 2, n - 1}):
+            if L < n:
+                add("truncate to %d" % L, data[:L], None, base)
+        add("superblock version 0xff", C13.apply_patches(data, [(8, b"\xff")]), None, base)
+        add("signature byte 1 flipped", C13.apply_patches(data, [(1, b"h")]), None, base)
+        add("end-of-file address cut to half", C13.apply_patches(data, [(40, (n // 2).to_bytes(8, "little"))]), None, base)
+    shutil.rmtree(d, ignore_errors=True)
+    stats["pool"] = len(pool)
+    stats["by_kind"] = {}
+    for f in pool:
+        k = f["kind"] or ("late-or-unclassified:" + f["base"].split(".")[-1])
+        stats["by_kind"][k] = stats["by_kind"].get(k, 0) + 1
+    return pool, stats
+
+
+def gen_io_refused(rng, pool, backend, nx=6, k=3):
+    """cgio level: a world of two good files (0 links to 1 and to some refused files), one file of each fixed refused kind and
+    nx files of the pool; every refused file is opened k times (read and modify) between uses of the good files; also the name
+    that is too long (index 63) and a missing one.  -> (world, ops, files)"""
+    cand = [f for f in pool if f["kind"] or backend == "hdf5"]
+    if backend == "adf":
+        cand = [f for f in cand if f["kind"]]
+    byk = {}
+    for f in cand:
+        byk.setdefault(f["kind"], []).append(f)
+    chosen = [rng.choice(byk[kk]) for kk in rng.sample(sorted(byk, key=str), min(len(byk), nx // 2))]
+    chosen += rng.sample(cand, min(len(cand), nx - len(chosen)))
+    kinds = ["ok", rng.choice(["ok", "okB", "okL"])] + ["empty", "garbage", "dir", "missing", "badhdr"]
+    files = {}
+    for f in chosen:
+        files[len(kinds)] = f["data"]
+        kinds.append(f["kind"] or "xg")          # (HDF5 sessions: the kind is not used, no table model is compared)
+    refused = list(range(2, len(kinds)))
+    linked = rng.sample(refused, min(3, len(refused)))
+    links = [(0, 1)] + [(0, j) for j in linked]
+    todo = [j for j in refused for _ in range(k)] + [63, 63]
+    rng.shuffle(todo)
+    ops = ["open 0 m"]
+    live = {1: 0}
+    for j in todo:
+        ops.append("open %d %s" % (j, rng.choice("rm")))
+        r = rng.random()
+        if r < 0.25:
+            ops.append("walk 1 1")
+        elif r < 0.4 and linked:
+            ops.append("walk 1 %d" % rng.choice(linked))          # a link to a refused file: ADFI_link_open is refused
+        elif r < 0.55:
+            ops.append("data 1 R8 7 all")
+        elif r < 0.7 and 2 not in live:
+            ops.append("open 1 r"); live[2] = 1
+        elif r < 0.85 and 2 in live:
+            ops.append("close 2"); del live[2]
+    world = "world %s %s" % (",".join(kinds), ",".join("%d>%d" % e for e in links))
+    return world, ops, files
+
+
+def gen_mll_refused(rng, pool, backend, nx=8, k=3):
+    """MLL level: cg_open of refused files (every special kind of the harness, the name that is too long, nx files of the pool incl.
+    those refused only behind cgio_open_file) k times each, read and modify mode, between opens / reads / closes of a good file"""
+    chosen = rng.sample(pool, min(len(pool), nx))
+    files = {30 + i: f["data"] for i, f in enumerate(chosen)}
+    special = [10, 11, 12, 13, 14, 15, 16, 17, 18, 99]
+    todo = [f for f in (sorted(files) + special) for _ in range(k)]
+    rng.shuffle(todo)
+    body = ["open 0 1 w"] + W + ["close 0", "open 0 1 r"]
+    for f in todo:
+        body.append("open 1 %d %s" % (f, rng.choice("rm")))
+        body.append("close 1")                   # a benign file that did open (closing a closed label is a refused no-op)
+        r = rng.random()
+        if r < 0.3:
+            body.append(rng.choice(["nzones 0 1", "rzone 0 1 1", "rcoord 0 1 1 CoordinateX", "nbases 0"]))
+        elif r < 0.4:
+            body += ["close 0", "open 0 1 %s" % rng.choice("rm")]
+    body += ["close 0", "close 1"]
+    prep = ["ftype " + backend] + ["prep %d %s %s" % (f, SPECIAL[f], backend) for f in special if SPECIAL[f] != "missing"]
+    return {"prep": prep, "body": body, "backend": backend, "shape": "refused-opens", "nfiles": 1, "files": files,
+            "file_desc": {str(30 + i): "%s: %s" % (f["base"], f["desc"]) for i, f in enumerate(chosen)}}
+
+
 def long_session(backend):
     """a session that must be repeatable for ever on the unchanged tree: writes, reads, navigation, modification, deletion,
     links between two files (ADF), failing calls that acquire nothing (bad index / name / mode, missing and non-CGNS files)"""
@@ -765,6 +928,11 @@ def load_corpus():
         c["file"] = os.path.basename(f)
         out.append(c)
     return out
+
+
+def rep_files(rep):
+    """the supplied files of a replay dict (base64) -> {index: bytes}"""
+    return {int(i): base64.b64decode(d) for i, d in (rep.get("files_b64") or {}).items()}
 
 
 def shrink_ops(ops, fails):
@@ -857,6 +1025,13 @@ def run(ck):
         futs.append(pool.submit(io_case, hio, world, ops, "adf", ck.work, "ioa%d" % i, variant if res["ok"] else None))
         if i < len(CORPUS_IO) or i % 2 == 0:
             futs.append(pool.submit(io_case, hio, world, ops, "hdf5", ck.work, "ioh%d" % i, None))
+    # refused opens: every refusal branch of the open paths, files derived with the C13 machinery (refused_pool)
+    rpool, stats["refused_pool"] = refused_pool(ck.work)
+    nref = 30 if big else 6
+    for i in range(nref):
+        for be in ("adf", "hdf5"):
+            world, ops, files = gen_io_refused(ck.rng, rpool, be, nx=8 if big else 6)
+            futs.append(pool.submit(io_case, hio, world, ops, be, ck.work, "ior%s%d" % (be[0], i), variant if (res["ok"] and be == "adf") else None, 1, files))
     for fu in futs:
         r = fu.result()
         stats["io_sessions"][r["backend"]] += 1
@@ -873,6 +1048,8 @@ def run(ck):
                 feats.add("data-types")
             if any(o.startswith(("bad ", "strand ")) for o in r["ops"]):
                 feats.add("failing-data-call")
+            if r["files"]:
+                feats.add("refused-opens")
             if len(set(k for k in r["world"].split()[1].split(",") if k.startswith("ok"))) > 1:
                 feats.add("mixed-layouts")
             if ml and ml[-1] == "diverge":
@@ -886,7 +1063,8 @@ def run(ck):
             if not same:
                 dv = vlib.first_divergence(ml, il)
                 corr_broken.append({"level": "cgio/adf", "world": r["world"], "ops": r["ops"], "outcome": r["outcome"],
-                                    "first_divergence": dv and {"line": dv[0], "model": dv[1], "impl": dv[2]}})
+                                    "first_divergence": dv and {"line": dv[0], "model": dv[1], "impl": dv[2]},
+                                    "files_b64": {str(i): base64.b64encode(d).decode() for i, d in r["files"].items()}})
         ck.case(hashlib.sha1((r["world"] + "|".join(r["ops"]) + r["backend"]).encode()).hexdigest() if (feats or r["backend"] == "hdf5" and ">" in r["world"]) else None,
                 sample={"level": "cgio", "backend": r["backend"], "world": r["world"], "ops": r["ops"][:8]})
         verdicts = io_oracle(r)
@@ -899,6 +1077,8 @@ def run(ck):
         for key, desc in verdicts:
             rep = {"level": "cgio", "backend": r["backend"], "world": r["world"], "ops": r["ops"], "failure": desc,
                    "oracle": "sanitizer + descriptor/HDF5-id counts + handle tables + LeakSanitizer (no model involved)"}
+            if r["files"]:
+                rep["files_b64"] = {str(i): base64.b64encode(d).decode() for i, d in r["files"].items()}
             note(key, desc, rep)
 
     # ---------------- MLL level
@@ -914,6 +1094,8 @@ def run(ck):
     fd = [fill_drain(be, v, 40 if big else 12) for v in FD_VARIANTS for be in ("adf", "hdf5")]
     # sizes around the growth steps of the zone maps (8, 16, 32, ... slots, two thirds usable)
     fd += [fill_drain(be, v, n, ["zone", "pzone"]) for be in ("adf", "hdf5") for v in ("same", "reopen") for n in ((1, 5, 6, 11, 22, 300) if big else (1, 6, 43))]
+    nfd = len(fd)
+    fd += [gen_mll_refused(ck.rng, rpool, be, nx=12 if big else 8) for be in ("adf", "hdf5") for _ in range(6 if big else 2)]
     nfd = len(fd)
     scs = scs[:nc] + [long_session("adf"), long_session("hdf5")] + fd + scs[nc:]
     ncyc = lambda i: 3 if i < nc else (200 if big else 25) if i < nc + 2 else (12 if big else 4) if i < nc + 2 + nfd else cyc
@@ -934,6 +1116,9 @@ def run(ck):
         for key, desc in bad:
             rep = {"level": "mll", "backend": sc["backend"], "prep": sc["prep"], "body": sc["body"], "cycles": r["cycles"], "failure": desc,
                    "oracle": "sanitizer + descriptor/HDF5-id counts + LeakSanitizer + heap after cycle N vs warm-up (no model involved)"}
+            if sc.get("files"):
+                rep["files_b64"] = {str(i): base64.b64encode(d).decode() for i, d in sc["files"].items()}
+                rep["file_desc"] = sc.get("file_desc")
             note(key, desc, rep)
         # model B: the MLL table after every cg_open / cg_close of the first repetition
         if res["ok"] and r["outcome"] == "ok":
@@ -957,8 +1142,8 @@ def run(ck):
             same = lambda bad, desc=desc: any(kk is None and dd.get("problem") == desc.get("problem") for kk, dd in bad)
             try:
                 if rep["level"] == "cgio" and len(rep["ops"]) > 3:
-                    small = vlib.ddmin(rep["ops"], lambda ops, rep=rep: same(io_oracle(io_case(hio, rep["world"], ops, rep["backend"], ck.work, "shr"))), max_tests=60)
-                    rr = io_oracle(io_case(hio, rep["world"], small, rep["backend"], ck.work, "shr"))
+                    small = vlib.ddmin(rep["ops"], lambda ops, rep=rep: same(io_oracle(io_case(hio, rep["world"], ops, rep["backend"], ck.work, "shr", files=rep_files(rep)))), max_tests=60)
+                    rr = io_oracle(io_case(hio, rep["world"], small, rep["backend"], ck.work, "shr", files=rep_files(rep)))
                     if same(rr):
                         rep = dict(rep, ops=small, ops_before_shrinking=len(rep["ops"]), failure=[dd for kk, dd in rr if kk is None][0])
             except vlib.Infra:
@@ -969,16 +1154,16 @@ def run(ck):
         if not ck.known_match(key):
             if rep["level"] == "cgio" and len(rep["ops"]) > 3:
                 def still(ops, rep=rep, key=key):
-                    rr = io_case(hio, rep["world"], ops, rep["backend"], ck.work, "shr")
+                    rr = io_case(hio, rep["world"], ops, rep["backend"], ck.work, "shr", files=rep_files(rep))
                     return any(kk == key for kk, _ in io_oracle(rr))
                 small = vlib.ddmin(rep["ops"], still, max_tests=60)
                 rep = dict(rep, ops=small, ops_before_shrinking=len(rep["ops"]))
-                for kk, dd in io_oracle(io_case(hio, rep["world"], small, rep["backend"], ck.work, "shr")):
+                for kk, dd in io_oracle(io_case(hio, rep["world"], small, rep["backend"], ck.work, "shr", files=rep_files(rep))):
                     if kk == key:
                         rep["failure"] = dd          # the description of the shrunk witness, not of the session it came from
             elif rep["level"] == "mll" and len(rep["body"]) > 8:
                 def still(body, rep=rep, key=key):
-                    sc2 = {"prep": rep["prep"], "body": body, "backend": rep["backend"], "shape": "shrink", "nfiles": 0}
+                    sc2 = {"prep": rep["prep"], "body": body, "backend": rep["backend"], "shape": "shrink", "nfiles": 0, "files": rep_files(rep)}
                     try:
                         rr = mll_case(hml, sc2, ck.work, "shr", 3)
                         return any(kk == key for kk, _ in mll_oracle(rr))
@@ -987,7 +1172,7 @@ def run(ck):
                 small = vlib.ddmin(rep["body"], still, max_tests=50)
                 rep = dict(rep, body=small, body_before_shrinking=len(rep["body"]))
                 try:
-                    sc2 = {"prep": rep["prep"], "body": small, "backend": rep["backend"], "shape": "shrink", "nfiles": 0}
+                    sc2 = {"prep": rep["prep"], "body": small, "backend": rep["backend"], "shape": "shrink", "nfiles": 0, "files": rep_files(rep)}
                     for kk, dd in mll_oracle(mll_case(hml, sc2, ck.work, "shr", 3)):
                         if kk == key:
                             rep["failure"] = dd
@@ -1011,12 +1196,12 @@ def replay(ck, path):
     vlib.build_impl()
     if r.get("level") == "cgio":
         h = vlib.build_harness("c17_io", ["c17_io.c"])
-        rr = io_case(h, r["world"], r["ops"], r["backend"], ck.work, "replay")
+        rr = io_case(h, r["world"], r["ops"], r["backend"], ck.work, "replay", files=rep_files(r))
         bad = io_oracle(rr)
         print("\n".join(rr["impl"][-12:]))
     elif r.get("level") == "mll":
         h = vlib.build_harness("c17_mll", ["c17_mll.c"])
-        sc = {"prep": r["prep"], "body": r["body"], "backend": r["backend"], "shape": "replay", "nfiles": 0}
+        sc = {"prep": r["prep"], "body": r["body"], "backend": r["backend"], "shape": "replay", "nfiles": 0, "files": rep_files(r)}
         rr = mll_case(h, sc, ck.work, "replay", r.get("cycles", 3))
         bad = mll_oracle(rr)
         print("\n".join(l for l in rr["impl"] if l.startswith("cycle") or l.startswith("end"))[-1500:])
